@@ -221,6 +221,69 @@ func runConc(c *Ctx) {
 		c.Nontrivial("contended-inserts")
 		c.End()
 	}
+	// ---- one writer takes the index from empty to three items and back, over and over, while readers search:
+	// every transition through "first item" and "last item" is crossed thousands of times
+	{
+		c.Begin("empty <-> non-empty transitions under readers")
+		sp, _ := newSpace(0)
+		h := index.NewHnsw(2, sp)
+		var stop int32
+		var mu sync.Mutex
+		var panics []string
+		var bad []string
+		var wg sync.WaitGroup
+		for g := 0; g < 6; g++ {
+			wg.Add(1)
+			go func() {
+				defer wg.Done()
+				for atomic.LoadInt32(&stop) == 0 {
+					func() {
+						defer func() {
+							if p := recover(); p != nil {
+								mu.Lock()
+								panics = append(panics, fmt.Sprint(p))
+								mu.Unlock()
+								atomic.StoreInt32(&stop, 1)
+							}
+						}()
+						res, err := h.Search(context.Background(), amath.Vector{1, 1}, 3)
+						if err != nil {
+							mu.Lock()
+							bad = append(bad, err.Error())
+							mu.Unlock()
+						}
+						for _, x := range res {
+							if n := int(x.Id[0]) | int(x.Id[1])<<8; n < 1 || n > 3 { // (idn() memoises in a shared map: not from reader goroutines)
+								mu.Lock()
+								bad = append(bad, fmt.Sprintf("returned id %d", n))
+								mu.Unlock()
+							}
+						}
+					}()
+				}
+			}()
+		}
+		cycles := c.Pick(4000, 40000)
+		for i := 0; i < cycles && atomic.LoadInt32(&stop) == 0; i++ {
+			for id := 1; id <= 3; id++ {
+				h.Insert(rid(id), amath.Vector{float32(id), float32(id)}, nil, id%2)
+			}
+			for id := 1; id <= 3; id++ {
+				h.Remove(rid(id))
+			}
+		}
+		atomic.StoreInt32(&stop, 1)
+		wg.Wait()
+		c.OpLocal("%d cycles insert 1,2,3 / remove 1,2,3 by one writer; 6 readers searching", cycles)
+		if len(panics) > 0 {
+			c.Violate("C13", "C13/search-panics", "a Search running while the single writer inserts the first item into an empty index (or removes the last one) panicked: "+panics[0], c.History())
+		}
+		if len(bad) > 0 {
+			c.Violate("C13", "C13/search-error", "a Search concurrent with the single writer failed or returned an id that was never stored: "+bad[0], c.History())
+		}
+		c.Nontrivial("empty-transitions")
+		c.End()
+	}
 	for round := 0; round < rounds; round++ {
 		r := rng.Fork()
 		nG := 2 + r.Intn(15)
